@@ -309,7 +309,10 @@ def _install_percent():
                 fr = _caller_frame()
                 if fr is not None and _in_raise(fr.f_code.co_filename, fr.f_lineno):
                     return PLACEHOLDER
-        return orig_repr(obj)
+        # builtinslib._repr carries a `post[]: True` contract, which lets CrossHair short-circuit the call and
+        # return a symbolic str for repr() of a concrete object ("proxy intolerance" -> UNKNOWN path); call the
+        # dunder directly instead
+        return bl.invoke_dunder(obj, "__repr__")
 
     def _format(obj, format_spec=""):
         with NoTracing():
